@@ -398,6 +398,41 @@ def part_run(ctx: Ctx) -> Result:
             res.violate(Violation(ID, "custom-filter", "subset-mismatch", {"part": "F", "mask": mask}, f"filter accepts {sorted(sel)} but logger saw {sorted(set(logged))}"))
     res.bounds["F_subset_filters"] = 64
     del sys.modules[modname]
+    # twins: textually identical functions (equal code objects) in two files, a custom filter admitting one file only;
+    # every call order, one tracer per order
+    tw_src = "def twin(x):\n    return x\n\n\nclass T:\n    def tm(self, x):\n        return x\n"
+    names_tw = [f"c17twin_a_{ctx.seed}", f"c17twin_b_{ctx.seed}", f"c17twin_c_{ctx.seed}"]
+    for nm in names_tw:
+        (d / f"{nm}.py").write_text(tw_src)
+    importlib.invalidate_caches()
+    tmods = [importlib.import_module(nm) for nm in names_tw]
+    assert tmods[0].twin.__code__ == tmods[1].twin.__code__ and tmods[0].twin.__code__ is not tmods[1].twin.__code__
+    res.oblige("F:twin-code-objects-equal", True)
+    for accept in itertools.chain.from_iterable(itertools.combinations(range(3), r) for r in (1, 2)):
+        files = {tmods[i].__file__ for i in accept}
+        for order in itertools.permutations(range(3)):
+            logged2: List[Tuple[str, str]] = []
+
+            class L2:
+                def log(self, t):
+                    logged2.append((t.func.__module__, t.func.__qualname__))
+
+                def flush(self):
+                    pass
+
+            with trace_calls(L2(), 0, lambda code: code.co_filename in files):
+                for i in order:
+                    tmods[i].twin(1)
+                    tmods[i].T().tm(1)
+            res.states += 1
+            res.transitions += 6
+            res.evaluations += 1
+            res.validated += 1
+            want2 = sorted((names_tw[i], q) for i in accept for q in ("twin", "T.tm"))
+            if sorted(logged2) != want2:
+                res.violate(Violation(ID, "custom-filter", "twin-functions", {"part": "F", "accept": list(accept), "order": list(order)}, f"filter admits files of {[names_tw[i] for i in accept]}, call order {order}: logger saw {sorted(logged2)}, expected {want2}"))
+    for nm in names_tw:
+        del sys.modules[nm]
     return res
 
 
@@ -406,7 +441,7 @@ def run(ctx: Ctx) -> Result:
     res.merge(part_paths(ctx))
     res.merge(part_misc(ctx))
     res.merge(part_run(ctx))
-    for o in ("P:symlinked-spelling-of-library-path", "A:allow-list-admits-library-package", "A:allow-list-admits-user-module", "A:allow-list-rejects", "C:equal-code-different-verdicts", "U:mod=True", "U:link_to_lib=False", "U:link_to_user=True", "U:near-root-path-admitted", "U:near-root-path-rejected"):
+    for o in ("P:symlinked-spelling-of-library-path", "A:allow-list-admits-library-package", "A:allow-list-admits-user-module", "A:allow-list-rejects", "C:equal-code-different-verdicts", "F:twin-code-objects-equal", "U:mod=True", "U:link_to_lib=False", "U:link_to_user=True", "U:near-root-path-admitted", "U:near-root-path-rejected"):
         res.obligations.setdefault(o, False)
     res.nontrivial_n = res.states
     return res
